@@ -199,6 +199,8 @@ class StringDataEncoding(DataEncoding):
                     self.byte_order = "mostSignificantByteFirst"
                 else:
                     raise ValueError("Byte order must be specified for multi-byte character encodings.")
+            else:
+                self.byte_order = byte_order
         else:
             self.byte_order = byte_order
             if self.byte_order and self.byte_order not in ("leastSignificantByteFirst", "mostSignificantByteFirst"):
@@ -453,6 +455,8 @@ class StringDataEncoding(DataEncoding):
         : ElementTree.Element
         """
         element = elmaker.StringDataEncoding(encoding=self.encoding)
+        if self.byte_order:
+            element.attrib["byteOrder"] = self.byte_order
 
         if self.fixed_length:
             size_element = elmaker.SizeInBits(
